@@ -407,6 +407,8 @@ def model_from_dict(obj: Dict) -> Model:
         [_metabolite_from_dict(metabolite) for metabolite in obj["metabolites"]]
     )
     model.genes.extend([gene_from_dict(gene) for gene in obj["genes"]])
+    for gene in model.genes:
+        gene._model = model
     model.add_reactions(
         [_reaction_from_dict(reaction, model) for reaction in obj["reactions"]]
     )
